@@ -24,6 +24,7 @@ import (
 	"regexp"
 	"runtime"
 	"sort"
+	"strconv"
 	"strings"
 	"sync"
 	"sync/atomic"
@@ -49,14 +50,52 @@ const (
 type Question struct {
 	Kind   string `json:"kind"` // query | range | config | flags | metadata
 	Name   string `json:"name,omitempty"`
-	Slices int    `json:"slices,omitempty"`
+	Slices int    `json:"slices,omitempty"` // range, Len==0: window [base, base + Slices*2h - step]
+	Off    int64  `json:"off,omitempty"`    // range, Len>0: window [base+Off, base+Off+Len] (seconds); Off is a multiple of 2h
+	Len    int64  `json:"len,omitempty"`
+}
+
+// window of a range question (unix seconds).
+func (q Question) window() (int64, int64) {
+	if q.Len > 0 {
+		return rangeBase + q.Off, rangeBase + q.Off + q.Len
+	}
+	return rangeBase, rangeBase + int64(max(q.Slices, 1))*7200 - rangeStep
+}
+
+type slice struct{ start, end int64 }
+
+// slices lists the requests a range question is expected to be split into. Used by the scheduler's model and to
+// tell which question a blocked request belongs to - never for a verdict. Valid because every window starts on
+// the 2h grid (or is shorter than 2h, which pint does not slice).
+func (q Question) slices() []slice {
+	ws, we := q.window()
+	if we-ws < 7200 {
+		return []slice{{ws, we}}
+	}
+	var out []slice
+	for s := ws; s < we; s += 7200 {
+		out = append(out, slice{s, min(s+7200-1, we)})
+	}
+	if len(out) > 0 {
+		out[len(out)-1].end = we
+	}
+	return out
 }
 
 func (q Question) n() int {
 	if q.Kind == "range" {
-		return max(q.Slices, 1)
+		return len(q.slices())
 	}
 	return 1
+}
+
+// expectedRange is what a caller of a range question must hold for the series {q=<expr>}: the fake server puts a
+// sample on every requested grid point, so the merged result is one range from the window start to the last grid
+// point <= end (+ step - 1s). An answer computed for another window (other end) does not fit.
+func (q Question) expectedRange() (int64, int64) {
+	ws, we := q.window()
+	return ws, ws + (we-ws)/rangeStep*rangeStep + rangeStep - 1
 }
 
 type Action struct {
@@ -91,6 +130,7 @@ var errAnswers = []fakeprom.Answer{
 
 var (
 	errInconclusive = errors.New("inconclusive")
+	errWrongAnswer  = errors.New("a caller received an answer that does not belong to the question it asked")
 	errHang         = errors.New("callers still blocked although every request was released and nothing is in flight")
 )
 
@@ -189,12 +229,26 @@ func (s *system) ask(q Question, wave int) (string, error) {
 		}
 		return fmt.Sprintf("%s %v", r.URI, r.Series), nil
 	case "range":
-		end := rangeBase + int64(q.n())*7200 - rangeStep
-		r, err := s.fg.RangeQuery(ctx, name, absRange{rangeBase, end, rangeStep})
+		ws, we := q.window()
+		r, err := s.fg.RangeQuery(ctx, name, absRange{ws, we, rangeStep})
 		if err != nil {
 			return "", err
 		}
-		return fmt.Sprintf("%s %s", r.URI, r.Series.Ranges.String()), nil
+		res := fmt.Sprintf("%s %s", r.URI, r.Series.Ranges.String())
+		es, ee := q.expectedRange()
+		var got []string
+		ok := false
+		for _, mr := range r.Series.Ranges {
+			if mr.Labels.Get("q") == name {
+				got = append(got, fmt.Sprintf("[%d..%d]", mr.Start.Unix(), mr.End.Unix()))
+				ok = mr.Start.Unix() == es && mr.End.Unix() == ee
+			}
+		}
+		if !ok || len(got) != 1 {
+			return res, fmt.Errorf("%w: asked %q over [%d..%d] step %ds, the server's answers for that window add up to [%d..%d], the caller received %v",
+				errWrongAnswer, name, ws, we, rangeStep, es, ee, got)
+		}
+		return res, nil
 	case "config":
 		r, err := s.fg.Config(ctx, 0)
 		if err != nil {
@@ -252,8 +306,8 @@ func (s *system) refreshCached() {
 	}
 	for i, q := range s.c.Questions {
 		n := 0
-		for _, k := range s.g.EverOK(q.endpoint(), q.Name) {
-			if !pend[k] {
+		for _, r := range s.g.EverOKRequests(q.endpoint(), q.Name) {
+			if !pend[r.Key] && s.questionOf(r) == i {
 				n++
 			}
 		}
@@ -289,7 +343,13 @@ func (s *system) questionOf(p fakeprom.Pending) int {
 			}
 		case "range":
 			if p.Endpoint == "query_range" && p.Question == q.Name {
-				return i
+				ps, _ := strconv.ParseInt(p.Start, 10, 64)
+				pe, _ := strconv.ParseInt(p.End, 10, 64)
+				for _, sl := range q.slices() {
+					if sl.start == ps && sl.end == pe {
+						return i
+					}
+				}
 			}
 		case "metadata":
 			if p.Endpoint == "metadata" && p.Question == q.Name {
@@ -370,7 +430,7 @@ func (s *system) exec(a Action) {
 			if p.Endpoint == "query_range" {
 				s.usedRangeErr = true
 				for _, o := range s.g.Pending() {
-					if o.ID != p.ID && o.Endpoint == p.Endpoint && o.Question == p.Question {
+					if o.ID != p.ID && s.questionOf(o) == qi {
 						siblings = append(siblings, o.ID)
 					}
 				}
@@ -412,11 +472,13 @@ func (s *system) errEligible(pend []fakeprom.Pending) []fakeprom.Pending {
 			continue
 		}
 		keys := map[string]bool{}
-		for _, k := range s.g.EverOK("query_range", p.Question) {
-			keys[k] = true
+		for _, r := range s.g.EverOKRequests("query_range", p.Question) {
+			if s.questionOf(r) == qi {
+				keys[r.Key] = true
+			}
 		}
 		for _, o := range pend {
-			if o.Endpoint == "query_range" && o.Question == p.Question {
+			if s.questionOf(o) == qi {
 				keys[o.Key] = true
 			}
 		}
@@ -463,6 +525,9 @@ func (s *system) verdict(wait time.Duration) error {
 		case <-c.done:
 			if c.pan != nil {
 				return fmt.Errorf("caller of %v panicked: %v", s.c.Questions[c.q], c.pan)
+			}
+			if errors.Is(c.err, errWrongAnswer) {
+				return c.err
 			}
 		default:
 		}
@@ -512,6 +577,9 @@ func (s *system) finalChecks() error {
 	type k struct{ q, wave int }
 	seen := map[k]string{}
 	for _, c := range s.callers {
+		if errors.Is(c.err, errWrongAnswer) {
+			return c.err
+		}
 		if c.err != nil || c.pan != nil {
 			continue
 		}
@@ -595,22 +663,100 @@ func confirmSafety(c Case, first error) error {
 // ---------------------------------------------------------------------------
 // generators
 
-func genQuestions(t *rapid.T) []Question {
+// genQuestions draws 3-4 distinct questions. Range questions may share their expression (and step) while asking
+// about different windows: same start / different end (60 vs 90 min, both unsliced), a short window that starts
+// where another window's trailing slice starts, and - stress layer only (sharing=true) - multi-slice windows that
+// have whole slices in common (same start, other end; shifted by one slice).
+func genQuestions(t *rapid.T, sharing bool) []Question {
 	n := rapid.IntRange(3, 4).Draw(t, "nq")
 	pool := []Question{
 		{Kind: "query", Name: "q1"}, {Kind: "query", Name: "q2"},
-		{Kind: "range", Name: "r1"}, {Kind: "range", Name: "r2"},
+		{Kind: "range", Name: "r1"}, {Kind: "range", Name: "r1"}, {Kind: "range", Name: "r1"}, {Kind: "range", Name: "r2"},
 		{Kind: "config"}, {Kind: "flags"},
 		{Kind: "metadata", Name: "m1"}, {Kind: "metadata", Name: "m2"},
 	}
 	perm := rapid.Permutation(pool).Draw(t, "questions")
-	out := perm[:n]
-	for i := range out {
-		if out[i].Kind == "range" {
-			out[i].Slices = rapid.SampledFrom([]int{1, 2, 3, 5}).Draw(t, fmt.Sprintf("slices%d", i))
+	var out []Question
+	seen := map[Question]bool{}
+	fullWindow := map[string]bool{}
+	for i := 0; i < len(perm) && len(out) < n; i++ {
+		q := perm[i]
+		if q.Kind == "range" {
+			lo, hi := 0, 6
+			if sharing {
+				hi = 9
+			} else if fullWindow[q.Name] {
+				lo = 3 // two multi-slice windows of one expression would have whole slices in common
+			}
+			v := rapid.IntRange(lo, hi).Draw(t, fmt.Sprintf("window%d", i))
+			if v <= 2 {
+				fullWindow[q.Name] = true
+			}
+			switch v {
+			case 0, 1, 2:
+				q.Slices = rapid.SampledFrom([]int{1, 2, 3, 5}).Draw(t, fmt.Sprintf("slices%d", i))
+			case 3:
+				q.Len = 3600 // [0, 1h]   one request
+			case 4:
+				q.Len = 5400 // [0, 1h30] one request, same start as case 3 and as every window starting at 0
+			case 5, 6:
+				// [m*2h, m*2h+1h30]: one request that starts where the trailing slice of a (m+1)-slice window starts
+				q.Off = int64(rapid.SampledFrom([]int{1, 2, 4}).Draw(t, fmt.Sprintf("tail%d", i))) * 7200
+				q.Len = 5400
+			case 7:
+				q.Len = 5*3600 - rangeStep // 3 slices [0,2h) [2h,4h) [4h,4h55]
+			case 8:
+				q.Len = 5*3600 + 1800 // 3 slices, the first two identical to case 7's, the last one longer
+			case 9:
+				q.Off, q.Len = 7200, 4*3600 // [2h,6h]: shares [2h,4h) with cases 7 and 8
+			}
+		}
+		if seen[q] {
+			continue
+		}
+		seen[q] = true
+		out = append(out, q)
+	}
+	return out
+}
+
+// sharedSlices: requests (expr, start, end) that belong to two different range questions of the case.
+func sharedSlices(qs []Question) map[string]bool {
+	out := map[string]bool{}
+	for i, a := range qs {
+		for j, b := range qs {
+			if i >= j || a.Kind != "range" || b.Kind != "range" || a.Name != b.Name {
+				continue
+			}
+			for _, x := range a.slices() {
+				for _, y := range b.slices() {
+					if x == y {
+						out[fmt.Sprintf("%s|%d|%d", a.Name, x.start, x.end)] = true
+					}
+				}
+			}
 		}
 	}
 	return out
+}
+
+// Known-finding class: one and the same range slice is asked by callers of two DIFFERENT windows (same expr and
+// step, windows with a whole slice in common) and travels to the server once per window, overlapping in flight.
+// Decided from the case (two such questions exist) and the request the observation is about (it is one of the
+// shared slices) - never from message text.
+const classSharedSlice = "identical-slice-of-two-windows"
+
+func isSharedSlice(shared map[string]bool, p fakeprom.Pending) bool {
+	if p.Endpoint != "query_range" || len(shared) == 0 {
+		return false
+	}
+	name := p.Question
+	if i := strings.LastIndex(name, "_w"); i > 0 {
+		name = name[:i]
+	}
+	ps, _ := strconv.ParseInt(p.Start, 10, 64)
+	pe, _ := strconv.ParseInt(p.End, 10, 64)
+	return shared[fmt.Sprintf("%s|%d|%d", name, ps, pe)]
 }
 
 func caseKey(c Case) string {
@@ -631,7 +777,7 @@ func TestPropMachine(t *testing.T) {
 	rapid.Check(t, func(rt *rapid.T) {
 		c := Case{Kind: "machine"}
 		c.Concurrency = rapid.SampledFrom([]int{1, 2, 3, 8, 3, 8}).Draw(rt, "concurrency")
-		c.Questions = genQuestions(rt)
+		c.Questions = genQuestions(rt, false)
 		s := newSystem(c)
 		defer s.shutdown()
 
@@ -739,7 +885,7 @@ func genStress(t *rapid.T) Case {
 	c := Case{Kind: "stress"}
 	c.Concurrency = rapid.SampledFrom([]int{1, 2, 3, 8}).Draw(t, "concurrency")
 	c.Procs = rapid.SampledFrom([]int{1, 4, 16}).Draw(t, "procs")
-	c.Questions = genQuestions(t)
+	c.Questions = genQuestions(t, true)
 	c.Waves = rapid.IntRange(2, 6).Draw(t, "waves")
 	k := rapid.IntRange(3, 12).Draw(t, "callers")
 	idx := make([]int, len(c.Questions))
@@ -757,9 +903,13 @@ func genStress(t *rapid.T) Case {
 type stressResult struct {
 	stats      fakeprom.Stats
 	nontrivial bool
+	sharedHits int    // observations that fall into classSharedSlice (tolerated or not)
+	class      string // known-finding class of the returned error ("" = none)
 }
 
-func runStress(c Case) (res stressResult, err error) {
+// runStress: tolerateShared=true skips observations of classSharedSlice (counted in sharedHits) so that the
+// rest of the schedule is still judged.
+func runStress(c Case, tolerateShared bool) (res stressResult, err error) {
 	if len(c.Questions) == 0 || len(c.Callers) == 0 || c.Concurrency <= 0 {
 		return res, fmt.Errorf("%w: empty stress case", errInconclusive)
 	}
@@ -779,6 +929,7 @@ func runStress(c Case) (res stressResult, err error) {
 	type k struct{ q, wave int }
 	results := map[k][]string{}
 	var pan any
+	var wrong error
 	var progress atomic.Int64
 	gate := make(chan struct{})
 	for _, order := range c.Callers {
@@ -798,6 +949,11 @@ func runStress(c Case) (res stressResult, err error) {
 					qi = qi % len(c.Questions)
 					r, err := s.ask(c.Questions[qi], wave)
 					progress.Add(1)
+					if errors.Is(err, errWrongAnswer) {
+						mu.Lock()
+						wrong = err
+						mu.Unlock()
+					}
 					if err == nil {
 						mu.Lock()
 						results[k{qi, wave}] = append(results[k{qi, wave}], r)
@@ -839,27 +995,84 @@ wait:
 	if pan != nil {
 		return res, fmt.Errorf("a caller panicked: %v", pan)
 	}
+	if wrong != nil {
+		return res, wrong
+	}
+	shared := sharedSlices(c.Questions)
 	// nothing is ever aborted here (no failing range slices), so suspects are final
 	if res.stats.Aborted == 0 {
 		for _, sp := range s.g.Suspects() {
+			if sp.Kind != "overflow" && isSharedSlice(shared, sp.Req) {
+				res.sharedHits++
+				if tolerateShared {
+					continue
+				}
+				res.class = classSharedSlice
+			}
 			return res, fmt.Errorf("%s", sp.String())
 		}
 	}
 	if c.ErrEvery == 0 {
-		keys := make([]string, 0, len(res.stats.PerKey))
-		for key := range res.stats.PerKey {
+		perKey := map[string]int{}
+		var first = map[string]fakeprom.Pending{}
+		for _, p := range s.g.Requests() {
+			if perKey[p.Key] == 0 {
+				first[p.Key] = p
+			}
+			perKey[p.Key]++
+		}
+		keys := make([]string, 0, len(perKey))
+		for key := range perKey {
 			keys = append(keys, key)
 		}
 		sort.Strings(keys)
 		for _, key := range keys {
-			if n := res.stats.PerKey[key]; n != 1 {
+			if n := perKey[key]; n != 1 {
+				if isSharedSlice(shared, first[key]) {
+					res.sharedHits++
+					if tolerateShared {
+						continue
+					}
+					res.class = classSharedSlice
+				}
 				return res, fmt.Errorf("the server saw %q %d times (no errors were injected, %d callers)", key, n, len(c.Callers))
 			}
 		}
 	}
-	for key, rs := range results {
+	// a shared slice that was answered twice carries two nonces: callers of the windows it belongs to may then
+	// legitimately (given that defect) differ in it; their equality is part of the same class
+	tainted := func(q Question) bool {
+		if q.Kind != "range" {
+			return false
+		}
+		for _, sl := range q.slices() {
+			if shared[fmt.Sprintf("%s|%d|%d", q.Name, sl.start, sl.end)] {
+				return true
+			}
+		}
+		return false
+	}
+	rkeys := make([]k, 0, len(results))
+	for key := range results {
+		rkeys = append(rkeys, key)
+	}
+	sort.Slice(rkeys, func(i, j int) bool {
+		if rkeys[i].q != rkeys[j].q {
+			return rkeys[i].q < rkeys[j].q
+		}
+		return rkeys[i].wave < rkeys[j].wave
+	})
+	for _, key := range rkeys {
+		rs := results[key]
 		for _, r := range rs[1:] {
 			if r != rs[0] {
+				if tainted(c.Questions[key.q]) {
+					res.sharedHits++
+					if tolerateShared {
+						break
+					}
+					res.class = classSharedSlice
+				}
 				return res, fmt.Errorf("two callers of %v (wave %d) received different results:\n  %s\n  %s", c.Questions[key.q], key.wave, rs[0], r)
 			}
 		}
@@ -877,12 +1090,14 @@ func stressClass(c Case) string {
 
 func driveStress(t *testing.T) {
 	rec := vstat.New(t, prop)
+	known := vstat.KnownClasses(prop)
+	sharedID, tolerate := known[classSharedSlice]
 	inconclusive := 0
 	rapid.Check(t, func(rt *rapid.T) {
 		c := genStress(rt)
-		res, err := runStress(c)
+		res, err := runStress(c, tolerate)
 		if errors.Is(err, errHang) {
-			if _, err2 := runStress(c); errors.Is(err2, errHang) {
+			if _, err2 := runStress(c, tolerate); errors.Is(err2, errHang) {
 				hangBound.Store(6)
 				err = fmt.Errorf("%w (free-running callers; reproduced on a second run of the same schedule)", errHang)
 			} else {
@@ -900,7 +1115,13 @@ func driveStress(t *testing.T) {
 			return
 		}
 		c.Class = stressClass(c)
+		if len(sharedSlices(c.Questions)) > 0 {
+			c.Class += ":sharedslices"
+		}
 		rec.Case(c.Class, res.nontrivial, caseKey(c), func() any { return c })
+		if tolerate && res.sharedHits > 0 {
+			rec.KnownHit(sharedID, c)
+		}
 		rec.Count("stress_requests_seen_by_server", int64(res.stats.Requests))
 		rec.Count("stress_max_in_flight_sum", int64(res.stats.MaxInFlight))
 		if err != nil {
@@ -1014,9 +1235,9 @@ func TestReplay(t *testing.T) {
 		}
 	case "stress":
 		for i := 0; i < 10 && err == nil; i++ {
-			_, err = runStress(c)
+			_, err = runStress(c, false)
 			if errors.Is(err, errHang) {
-				if _, err2 := runStress(c); !errors.Is(err2, errHang) {
+				if _, err2 := runStress(c, false); !errors.Is(err2, errHang) {
 					err = fmt.Errorf("%w: callers stalled once but not when the schedule was run again", errInconclusive)
 				}
 			}
